@@ -210,7 +210,7 @@ class C11(Prop):
         res = []; bad = []; runs = 0; files = 0; lines_total = 0
         t0 = time.time()
         try:
-            cases = []; metas = []
+            cases = []; metas = []; metas_o = {}
             for i in range(nfiles):
                 kind = 10 if i % 2 == 0 else 11
                 _, o, sizes, inp, tags = pipeline_input(rng, tier, 0 if kind == 10 else 2)
@@ -219,6 +219,7 @@ class C11(Prop):
                     for k in rng.sample(range(len(inp)), min(len(inp), 5)):
                         inp[k][3] = rng.choice([0x7fc00000, 0x7f800000, 0xff800000])
                 path = os.path.join(work, "f%d.%s" % (i, "bw" if kind == 10 else "bb"))
+                metas_o[path] = o
                 cases.append(sx([kind, o, sizes, inp, path]))
                 metas.append((kind, path, len(inp)))
             outs = core.run_impl(self.ID, cases, per_case_timeout=60.0)
@@ -244,6 +245,17 @@ class C11(Prop):
                 if rc0 != 0 or ref is None:
                     bad.append((case, "single-threaded path failed: rc=%s" % rc0, "")); continue
                 lines_total += ref.count(b"\n")
+                if kind == 11:
+                    # bigbedtobed --zoom <level>: the zoom-record output must not depend on -t either
+                    zl = [z for z in (metas_o[path][5][0] if metas_o[path][5] else [metas_o[path][3]]) if z > 0]
+                    if zl:
+                        zr0, zref = conv(["-t", "1", "--zoom", str(zl[0])], 0, "z1")
+                        for t in tcounts[:3]:
+                            zr, zdata = conv(["-t", str(t), "--zoom", str(zl[0])], 0, "z%d" % t)
+                            runs += 1
+                            if zr != zr0 or zdata != zref:
+                                bad.append((case, "%s -t %d --zoom %d: rc=%s vs %s with -t 1, %s" % (os.path.basename(tool), t, zl[0], zr, zr0,
+                                            "text differs from -t 1"), (zdata or b"")[:600].decode(errors="replace")))
                 for t in tcounts:
                     for k in range(seeds_per + 1):
                         dseed = 0 if k == 0 else rng.randrange(1, 1 << 40)
